@@ -136,4 +136,503 @@ def witnesses : List (String × Prog) :=
    ("readline0_on_unreadable", w_readline0_on_unreadable),
    ("returns_none", w_returns_none)]
 
+
+/-! ## refinement on disciplined positioning / writing programs -/
+
+/-- calls covered by the proved refinement: everything except the read-type calls; `whence ∈ {0,1,2}` -/
+def WOp : FOp → Prop
+  | .write _ | .tell | .flush | .truncate _ | .close => True
+  | .seek _ wh => wh ≤ 2
+  | _ => False
+
+/-- simulation relation between the SFTPFile model and the local-file spec (files not opened in append mode;
+    no read-ahead, because no read-type call has been made) -/
+structure Rel (f : BF Srv) (p : PF) : Prop where
+  closed : p.closed = f.closed
+  wr : p.wr = f.wr
+  papp : p.app = false
+  app : f.app = false
+  sapp : f.s.append = false
+  coh : Coherent f.s
+  clean : f.s.didRead = false ∧ f.s.stale = false
+  rbuf : f.rbuf = []
+  pos0 : 0 ≤ f.pos
+  rp : f.realpos = f.pos
+  bs : 1 ≤ f.bufsize
+  unbuf : f.buffered = false → f.wbuf = []
+  dead : f.closed = true → p.content = f.s.content ∧ f.s.hopen = false
+  hopen : f.closed = false → f.s.hopen = true
+  content : f.closed = false → p.content = overlay f.s.content f.pos.toNat f.wbuf
+  ppos : f.closed = false → (p.pos : Int) = f.pos + f.wbuf.length
+
+/-- what one step of the refinement proof establishes -/
+def StepOK (o : Ops Srv) (f : BF Srv) (p : PF) (op : FOp) : Prop :=
+  Rel (sstep o f op).1 (pstep p op).1 ∧ sameOut op (sstep o f op).2 (pstep p op).2 = true
+
+private theorem t_nil {b : Bool} {x : Tag} (h : (if b then [x] else ([] : List Tag)) = []) : b = false := by
+  cases b <;> simp_all
+
+private theorem sameOut_err (op : FOp) (e : Err) : sameOut op (.err e) PyFile.E = true := by
+  cases op <;> simp [sameOut, eraseErr, eraseRet, PyFile.E]
+
+private theorem step_tell (o : Ops Srv) (f : BF Srv) (p : PF) (r : Rel f p) (ht : triggers o f .tell = []) :
+    StepOK o f p .tell := by
+  simp only [triggers, List.append_eq_nil_iff] at ht
+  have hc : f.closed = false := t_nil ht.1
+  have hw : f.wbuf = [] := by
+    have := t_nil ht.2
+    simp [hc] at this
+    simpa using this
+  have hp := r.ppos hc
+  have hpc : p.closed = false := by rw [r.closed, hc]
+  simp only [StepOK, sstep, pstep, hpc, Bool.false_eq_true, if_false]
+  refine ⟨r, ?_⟩
+  simp only [sameOut, eraseRet, eraseErr, BufFile.tell]
+  rw [hw] at hp
+  simp at hp
+  simp [hp]
+
+private theorem step_flush (maxReq : Nat) (hm : 1 ≤ maxReq) (f : BF Srv) (p : PF) (r : Rel f p)
+    (ht : triggers (sftpOps maxReq) f .flush = []) : StepOK (sftpOps maxReq) f p .flush := by
+  simp only [triggers] at ht
+  have hc : f.closed = false := t_nil ht
+  have hpc : p.closed = false := by rw [r.closed, hc]
+  obtain ⟨h1, h2, h3, h4, h5, h6, h7, h8, h9⟩ :=
+    flush_sftp_noapp maxReq hm f (by rw [r.rp]; exact r.pos0) r.coh r.app r.sapp
+  simp only [StepOK, sstep, pstep, hpc, Bool.false_eq_true, if_false]
+  rcases hres : BufFile.flush (sftpOps maxReq) f with ⟨f1, r1⟩
+  rw [hres] at h1 h2 h3 h4 h5 h6 h7 h8 h9
+  simp only at h1 h2 h3 h4 h5 h6 h7 h8 h9
+  subst h1
+  obtain ⟨c1, c2, c3, c4, c5, c6, c7, c8, c9, c10, c11⟩ := h9
+  obtain ⟨s1, s2, s3, s4, s5⟩ := h7
+  simp only [outOf]
+  refine ⟨?_, by simp [sameOut, eraseRet, eraseErr]⟩
+  have hcl : f1.closed = false := by rw [c11]; exact hc
+  exact {
+    closed := by rw [c11]; exact r.closed
+    wr := by rw [c2]; exact r.wr
+    papp := r.papp
+    app := by rw [c3]; exact r.app
+    sapp := by rw [s1]; exact r.sapp
+    coh := h6
+    clean := by rw [s4, s5]; exact r.clean
+    rbuf := by rw [c9]; exact r.rbuf
+    pos0 := by rw [h3]; have := r.pos0; omega
+    rp := by rw [h4, h3, r.rp]
+    bs := by rw [c7]; exact r.bs
+    unbuf := fun _ => h8
+    dead := fun h => by rw [hcl] at h; cases h
+    hopen := fun _ => by rw [s2]; exact r.hopen hc
+    content := fun _ => by rw [h8, overlay_nil, h2, r.content hc, r.rp]
+    ppos := fun _ => by rw [h8, h3, r.ppos hc]; simp }
+
+/-- the state after a successful flush, as a relation-preserving step with the spec state untouched -/
+private theorem rel_after_flush (maxReq : Nat) (hm : 1 ≤ maxReq) (f : BF Srv) (p : PF) (r : Rel f p)
+    (hc : f.closed = false) :
+    (BufFile.flush (sftpOps maxReq) f).2 = .ok () ∧ Rel (BufFile.flush (sftpOps maxReq) f).1 p ∧
+    (BufFile.flush (sftpOps maxReq) f).1.wbuf = [] ∧ (BufFile.flush (sftpOps maxReq) f).1.closed = false := by
+  have ht : triggers (sftpOps maxReq) f .flush = [] := by simp [triggers, hc]
+  have hs := step_flush maxReq hm f p r ht
+  have hpc : p.closed = false := by rw [r.closed, hc]
+  obtain ⟨h1, _, _, _, _, _, _, h8, h9⟩ :=
+    flush_sftp_noapp maxReq hm f (by rw [r.rp]; exact r.pos0) r.coh r.app r.sapp
+  simp only [StepOK, sstep, pstep, hpc, Bool.false_eq_true, if_false] at hs
+  rcases hres : BufFile.flush (sftpOps maxReq) f with ⟨f1, r1⟩
+  rw [hres] at h1 h8 h9 hs
+  simp only at h1 h8 h9
+  subst h1
+  exact ⟨rfl, hs.1, h8, by rw [h9.2.2.2.2.2.2.2.2.2.2]; exact hc⟩
+
+private theorem step_close (maxReq : Nat) (hm : 1 ≤ maxReq) (f : BF Srv) (p : PF) (r : Rel f p) :
+    StepOK (sftpOps maxReq) f p .close := by
+  simp only [StepOK, sstep, pstep, SftpFile.close]
+  by_cases hc : f.closed = true
+  · rw [if_pos hc]
+    refine ⟨?_, by simp [outOf, sameOut, eraseRet, eraseErr]⟩
+    simp only [outOf]
+    have hpc : p.closed = true := by rw [r.closed, hc]
+    exact { r with closed := by simp [hc], dead := fun _ => r.dead hc,
+                   content := fun h => r.content h, ppos := fun h => r.ppos h }
+  · have hc' : f.closed = false := by simpa using hc
+    rw [if_neg hc]
+    obtain ⟨g1, g2, g3, g4⟩ := rel_after_flush maxReq hm f p r hc'
+    unfold BufFile.close
+    rcases hres : BufFile.flush (sftpOps maxReq) f with ⟨f1, r1⟩
+    rw [hres] at g1 g2 g3 g4
+    simp only at g1 g2 g3 g4
+    subst g1
+    refine ⟨?_, by simp [outOf, sameOut, eraseRet, eraseErr]⟩
+    simp only [outOf]
+    have hcont := g2.content g4
+    rw [g3, overlay_nil] at hcont
+    exact {
+      closed := rfl, wr := g2.wr, papp := g2.papp, app := g2.app, sapp := g2.sapp,
+      coh := g2.coh, clean := g2.clean, rbuf := g2.rbuf, pos0 := g2.pos0, rp := g2.rp, bs := g2.bs,
+      unbuf := g2.unbuf,
+      dead := fun _ => ⟨hcont, rfl⟩,
+      hopen := fun h => (by cases h),
+      content := fun h => (by cases h),
+      ppos := fun h => (by cases h) }
+
+private theorem step_truncate (o : Ops Srv) (f : BF Srv) (p : PF) (n : Int) (r : Rel f p)
+    (ht : triggers o f (.truncate n) = []) : StepOK o f p (.truncate n) := by
+  simp only [StepOK, sstep, pstep, SftpFile.truncate]
+  by_cases hc : f.closed = true
+  · -- both raise
+    have hpc : p.closed = true := by rw [r.closed, hc]
+    have hh := (r.dead hc).2
+    simp only [hpc, Bool.true_or, if_true]
+    by_cases hn : n < 0
+    · simp only [hn, if_true, outOf]; exact ⟨r, sameOut_err _ _⟩
+    · simp only [hn, if_false, hh, Bool.not_false, if_true, outOf]; exact ⟨r, sameOut_err _ _⟩
+  · have hc' : f.closed = false := by simpa using hc
+    have hpc : p.closed = false := by rw [r.closed, hc']
+    simp only [triggers, hc', Bool.not_false, Bool.true_and, List.append_eq_nil_iff] at ht
+    obtain ⟨⟨⟨t1, t2⟩, t3⟩, _⟩ := ht
+    have hwb : f.wbuf = [] := by
+      have := t_nil t1; simp at this; exact this.1
+    have hwr : f.wr = true := by
+      have := t_nil t2; simpa using this
+    have hpw : p.wr = true := by rw [r.wr, hwr]
+    have hz : ¬ (f.s.truncZero = true ∧ n > 0) := by
+      have := t_nil t3; simp [hwr] at this
+      intro ⟨a, b⟩; exact absurd (this a) (by omega)
+    simp only [hpc, hpw, Bool.false_or, Bool.not_true]
+    by_cases hn : n < 0
+    · simp only [hn, if_true, outOf, decide_true, Bool.or_true]
+      exact ⟨r, sameOut_err _ _⟩
+    · have hho := r.hopen hc'
+      simp only [hn, if_false, hho, Bool.not_true, Bool.false_eq_true, outOf, decide_false, Bool.or_false]
+      refine ⟨?_, by simp [sameOut, eraseRet, eraseErr]⟩
+      have hcont := r.content hc'
+      rw [hwb, overlay_nil] at hcont
+      have hnew : (srvTruncate f.s n.toNat).content = p.content.take n.toNat ++ List.replicate (n.toNat - p.content.length) 0 := by
+        simp only [srvTruncate]
+        by_cases hz' : f.s.truncZero = true
+        · have : n.toNat = 0 := by
+            have : ¬ n > 0 := fun h => hz ⟨hz', h⟩
+            omega
+          simp [hz', this]
+        · simp [hz', hcont]
+      exact {
+        closed := (by simp [hc']), wr := (by simp [hwr]), papp := r.papp, app := r.app, sapp := r.sapp,
+        coh := r.coh,
+        clean := (by simp [srvTruncate, r.clean.1, r.clean.2]),
+        rbuf := r.rbuf, pos0 := r.pos0, rp := r.rp, bs := r.bs, unbuf := r.unbuf,
+        dead := fun h => (by simp [hc'] at h),
+        hopen := fun _ => hho,
+        content := fun _ => (by simp only [hwb, overlay_nil]; exact hnew.symm),
+        ppos := fun h => r.ppos h }
+
+private theorem step_seek (maxReq : Nat) (hm : 1 ≤ maxReq) (f : BF Srv) (p : PF) (off : Int) (wh : Nat)
+    (r : Rel f p) (ht : triggers (sftpOps maxReq) f (.seek off wh) = []) :
+    StepOK (sftpOps maxReq) f p (.seek off wh) := by
+  simp only [triggers, List.append_eq_nil_iff] at ht
+  have hc : f.closed = false := t_nil ht.1
+  have hpc : p.closed = false := by rw [r.closed, hc]
+  have hneg := t_nil ht.2
+  obtain ⟨g1, g2, g3, g4⟩ := rel_after_flush maxReq hm f p r hc
+  simp only [StepOK, sstep, pstep, SftpFile.seek, hpc, Bool.false_eq_true, if_false]
+  rcases hres : BufFile.flush (sftpOps maxReq) f with ⟨f1, r1⟩
+  rw [hres] at g1 g2 g3 g4 hneg
+  simp only at g1 g2 g3 g4 hneg
+  subst g1
+  have hcont := g2.content g4
+  rw [g3, overlay_nil] at hcont
+  have hpos := g2.ppos g4
+  rw [g3] at hpos
+  simp only [List.length_nil, Int.natCast_zero, Int.add_zero] at hpos
+  have hsz : getSize f1.s = (p.content.length : Int) := by
+    simp [getSize, g2.hopen g4, hcont]
+  have ht_eq : (if (wh == 0) = true then off else if (wh == 1) = true then (p.pos : Int) + off else (p.content.length : Int) + off)
+      = (if (wh == 0) = true then off else if (wh == 1) = true then f1.pos + off else getSize f1.s + off) := by
+    rw [hpos, hsz]
+  have hge : ¬ (if (wh == 0) = true then off else if (wh == 1) = true then f1.pos + off else getSize f1.s + off) < 0 := by
+    simp only [hc, Bool.not_false, Bool.true_and, decide_eq_false_iff_not] at hneg
+    exact hneg
+  simp only [ht_eq, hge, if_false, outOf]
+  refine ⟨?_, by simp [sameOut, eraseRet, eraseErr]⟩
+  generalize (if (wh == 0) = true then off else if (wh == 1) = true then f1.pos + off else getSize f1.s + off) = t at hge
+  have ht0 : 0 ≤ t := by omega
+  exact {
+    closed := (by simp [g4]), wr := g2.wr, papp := g2.papp, app := g2.app, sapp := g2.sapp,
+    coh := g2.coh, clean := g2.clean, rbuf := rfl, pos0 := ht0, rp := rfl, bs := g2.bs, unbuf := g2.unbuf,
+    dead := fun h => (by rw [g4] at h; cases h),
+    hopen := fun h => g2.hopen h,
+    content := fun _ => (by simp only [g3, overlay_nil]; exact hcont),
+    ppos := fun _ => (by simp only [g3, List.length_nil]; omega) }
+
+/-- the spec state after `write(d)` on an open writable non-append file -/
+private def pw (p : PF) (d : Bytes) : PF :=
+  { p with content := overlay p.content p.pos d, pos := p.pos + d.length }
+
+private theorem ppos_nat {f : BF Srv} {p : PF} (r : Rel f p) (hc : f.closed = false) :
+    p.pos = f.pos.toNat + f.wbuf.length := by
+  have := r.ppos hc; have := r.pos0; omega
+
+/-- buffering `d` (no I/O) keeps the relation with the spec state after the write -/
+private theorem rel_buffered (f : BF Srv) (p : PF) (d : Bytes) (r : Rel f p) (hc : f.closed = false)
+    (hb : f.buffered = true) : Rel { f with wbuf := f.wbuf ++ d } (pw p d) := by
+  have hp := ppos_nat r hc
+  exact {
+    closed := r.closed, wr := r.wr, papp := r.papp, app := r.app, sapp := r.sapp, coh := r.coh,
+    clean := r.clean, rbuf := r.rbuf, pos0 := r.pos0, rp := r.rp, bs := r.bs,
+    unbuf := fun h => (by simp [hb] at h),
+    dead := fun h => (by simp [hc] at h),
+    hopen := fun h => r.hopen h,
+    content := fun _ => (by simp only [pw]; rw [r.content hc, hp, overlay_append]),
+    ppos := fun _ => (by simp only [pw, List.length_append]; have := r.ppos hc; omega) }
+
+/-- writing out the first `cut` buffered bytes and keeping the rest buffered keeps the relation -/
+private theorem rel_partial_flush (maxReq : Nat) (hm : 1 ≤ maxReq) (f : BF Srv) (p : PF) (cut : Nat)
+    (r : Rel f p) (hc : f.closed = false) (hb : f.buffered = true) (hcut : cut ≤ f.wbuf.length) :
+    (writeAll (sftpOps maxReq) f (f.wbuf.take cut)).2 = .ok () ∧
+    Rel { (writeAll (sftpOps maxReq) f (f.wbuf.take cut)).1 with wbuf := f.wbuf.drop cut } p := by
+  obtain ⟨h1, h2, h3, h4, _, h6, h7, h8⟩ :=
+    writeAll_sftp_noapp maxReq hm f (f.wbuf.take cut) (by rw [r.rp]; exact r.pos0) r.coh r.app r.sapp
+  refine ⟨h1, ?_⟩
+  obtain ⟨c1, c2, c3, c4, c5, c6, c7, c8, c9, c10, c11⟩ := h8
+  obtain ⟨s1, s2, s3, s4, s5⟩ := h7
+  have hlen : (f.wbuf.take cut).length = cut := by rw [List.length_take]; omega
+  rw [hlen] at h3 h4
+  have hcl : (writeAll (sftpOps maxReq) f (f.wbuf.take cut)).1.closed = false := by rw [c11]; exact hc
+  exact {
+    closed := (by simp only; rw [c11]; exact r.closed)
+    wr := (by simp only; rw [c2]; exact r.wr)
+    papp := r.papp
+    app := (by simp only; rw [c3]; exact r.app)
+    sapp := (by simp only; rw [s1]; exact r.sapp)
+    coh := h6
+    clean := (by simp only; rw [s4, s5]; exact r.clean)
+    rbuf := (by simp only; rw [c9]; exact r.rbuf)
+    pos0 := (by simp only; rw [h3]; have := r.pos0; omega)
+    rp := (by simp only; rw [h4, h3, r.rp])
+    bs := (by simp only; rw [c7]; exact r.bs)
+    unbuf := fun h => (by simp only at h; rw [c5, hb] at h; cases h)
+    dead := fun h => (by simp only at h; rw [hcl] at h; cases h)
+    hopen := fun _ => (by simp only; rw [s2]; exact r.hopen hc)
+    content := fun _ => (by
+      simp only
+      rw [h2, h3, r.rp, r.content hc]
+      have : (f.pos + (cut : Int)).toNat = f.pos.toNat + (f.wbuf.take cut).length := by
+        rw [hlen]; have := r.pos0; omega
+      rw [this, overlay_append, List.take_append_drop])
+    ppos := fun _ => (by
+      simp only
+      rw [h3, r.ppos hc, List.length_drop]; omega) }
+
+private theorem step_write (maxReq : Nat) (hm : 1 ≤ maxReq) (f : BF Srv) (p : PF) (d : Bytes) (r : Rel f p) :
+    StepOK (sftpOps maxReq) f p (.write d) := by
+  simp only [StepOK, sstep, pstep]
+  unfold BufFile.write
+  by_cases hc : f.closed = true
+  · have hpc : p.closed = true := by rw [r.closed, hc]
+    simp only [hc, hpc, if_true, Bool.true_or, outOf]
+    exact ⟨r, sameOut_err _ _⟩
+  have hc' : f.closed = false := by simpa using hc
+  have hpc : p.closed = false := by rw [r.closed, hc']
+  rw [if_neg hc]
+  by_cases hw' : f.wr = false
+  · have hpw : p.wr = false := by rw [r.wr, hw']
+    simp only [hw', hpw, hpc, Bool.not_false, if_true, Bool.false_or, outOf]
+    exact ⟨r, sameOut_err _ _⟩
+  have hw : f.wr = true := by simpa using hw'
+  have hpw : p.wr = true := by rw [r.wr, hw]
+  rw [if_neg (by simp [hw])]
+  have hspec : (if (p.closed || !p.wr) = true then (p, PyFile.E) else
+      if p.app = true then
+        ({ p with content := p.content ++ d, pos := if d.isEmpty = true then p.pos else (p.content ++ d).length }, Out.pos d.length)
+      else ({ p with content := overlay p.content p.pos d, pos := p.pos + d.length }, Out.pos d.length))
+      = (pw p d, Out.pos d.length) := by
+    simp [hpc, hpw, r.papp, pw]
+  rw [hspec]
+  have hso : ∀ m : BF Srv, sameOut (.write d) (outOf (fun _ => Out.unit) (m, Except.ok ())).2 (Out.pos d.length) = true := by
+    intro m; simp [outOf, sameOut, eraseRet, eraseErr]
+  by_cases hb : f.buffered = true
+  · rw [if_neg (by simp [hb])]
+    have r2 := rel_buffered f p d r hc' hb
+    simp only
+    by_cases hl : f.lineBuf = true
+    · rw [if_pos hl]
+      cases hq : rfindLF d with
+      | none => exact ⟨r2, hso _⟩
+      | some q =>
+        simp only
+        have hq1 := (rfindLF_spec d q hq).1
+        have hcut : q + ((f.wbuf ++ d).length - d.length) + 1 ≤ (f.wbuf ++ d).length := by
+          simp only [List.length_append]; omega
+        obtain ⟨k1, k2⟩ := rel_partial_flush maxReq hm { f with wbuf := f.wbuf ++ d } (pw p d)
+          (q + ((f.wbuf ++ d).length - d.length) + 1) r2 hc' hb hcut
+        rcases hres : writeAll (sftpOps maxReq) { f with wbuf := f.wbuf ++ d }
+          ((f.wbuf ++ d).take (q + ((f.wbuf ++ d).length - d.length) + 1)) with ⟨f3, r3⟩
+        rw [hres] at k1 k2
+        simp only at k1 k2
+        subst k1
+        exact ⟨k2, hso _⟩
+    · rw [if_neg hl]
+      by_cases hfull : (f.wbuf ++ d).length ≥ f.bufsize
+      · rw [if_pos hfull]
+        obtain ⟨g1, g2, _, _⟩ := rel_after_flush maxReq hm { f with wbuf := f.wbuf ++ d } (pw p d) r2 hc'
+        rcases hres : BufFile.flush (sftpOps maxReq) { f with wbuf := f.wbuf ++ d } with ⟨f3, r3⟩
+        rw [hres] at g1 g2
+        simp only at g1 g2
+        subst g1
+        exact ⟨g2, hso _⟩
+      · rw [if_neg hfull]
+        exact ⟨r2, hso _⟩
+  · have hb' : f.buffered = false := by simpa using hb
+    rw [if_pos (by simp [hb'])]
+    have hwb := r.unbuf hb'
+    obtain ⟨h1, h2, h3, h4, _, h6, h7, h8⟩ :=
+      writeAll_sftp_noapp maxReq hm f d (by rw [r.rp]; exact r.pos0) r.coh r.app r.sapp
+    obtain ⟨c1, c2, c3, c4, c5, c6, c7, c8, c9, c10, c11⟩ := h8
+    obtain ⟨s1, s2, s3, s4, s5⟩ := h7
+    rcases hres : writeAll (sftpOps maxReq) f d with ⟨f3, r3⟩
+    rw [hres] at h1 h2 h3 h4 h6 c1 c2 c3 c4 c5 c6 c7 c8 c9 c10 c11 s1 s2 s3 s4 s5
+    simp only at h1 h2 h3 h4 h6 c1 c2 c3 c4 c5 c6 c7 c8 c9 c10 c11 s1 s2 s3 s4 s5
+    subst h1
+    refine ⟨?_, hso _⟩
+    simp only [outOf]
+    have hp := ppos_nat r hc'
+    rw [hwb] at hp
+    simp only [List.length_nil, Nat.add_zero] at hp
+    have hcont := r.content hc'
+    rw [hwb, overlay_nil] at hcont
+    have hcl : f3.closed = false := by rw [c11]; exact hc'
+    exact {
+      closed := (by rw [c11]; exact r.closed)
+      wr := (by rw [c2]; exact r.wr)
+      papp := r.papp
+      app := (by rw [c3]; exact r.app)
+      sapp := (by rw [s1]; exact r.sapp)
+      coh := h6
+      clean := (by rw [s4, s5]; exact r.clean)
+      rbuf := (by rw [c9]; exact r.rbuf)
+      pos0 := (by rw [h3]; have := r.pos0; omega)
+      rp := (by rw [h4, h3, r.rp])
+      bs := (by rw [c7]; exact r.bs)
+      unbuf := fun _ => (by rw [c10]; exact hwb)
+      dead := fun h => (by rw [hcl] at h; cases h)
+      hopen := fun _ => (by rw [s2]; exact r.hopen hc')
+      content := fun _ => (by rw [c10, hwb, overlay_nil, h2, r.rp]; simp only [pw]; rw [hcont, hp])
+      ppos := fun _ => (by rw [c10, hwb, h3]; simp only [pw, List.length_nil]; have := r.ppos hc'; rw [hwb] at this; simp at this; omega) }
+
+/-- One call: on related states, a positioning/writing call that fires no defect trigger returns the same
+    value (modulo `returns_none` and the exception class) and leaves related states. -/
+theorem step_refines (maxReq : Nat) (hm : 1 ≤ maxReq) (f : BF Srv) (p : PF) (op : FOp) (r : Rel f p)
+    (hop : WOp op) (ht : triggers (sftpOps maxReq) f op = []) : StepOK (sftpOps maxReq) f p op := by
+  cases op with
+  | read n => exact absurd hop (by simp [WOp])
+  | readline n => exact absurd hop (by simp [WOp])
+  | readlines h => exact absurd hop (by simp [WOp])
+  | write d => exact step_write maxReq hm f p d r
+  | seek off wh => exact step_seek maxReq hm f p off wh r ht
+  | tell => exact step_tell _ f p r ht
+  | flush => exact step_flush maxReq hm f p r ht
+  | truncate n => exact step_truncate _ f p n r ht
+  | close => exact step_close maxReq hm f p r
+
+/-- **Refinement (partial).**  For every request-size limit, every buffer size / buffering mode, every file
+    content and every program of write/seek/tell/flush/truncate/close calls on a file not opened in append mode:
+    if no defect trigger fires along the run, SFTPFile returns what the local file returns at every call
+    (modulo `returns_none`) and the two stay related — in particular the server file equals the local file
+    once closed, and equals it up to the not-yet-flushed write buffer before.
+    NOT covered by this theorem (tied by correspondence and oracle only): read/readline/readlines calls and
+    append-mode files. -/
+theorem refines_partial (maxReq : Nat) (hm : 1 ≤ maxReq) (f : BF Srv) (p : PF) (prog : List FOp) (r : Rel f p)
+    (hops : ∀ op ∈ prog, WOp op) (ht : runTags (sftpOps maxReq) f prog = []) :
+    sameOuts prog (srun (sftpOps maxReq) f prog).2 (prun p prog).2 = true ∧
+    Rel (srun (sftpOps maxReq) f prog).1 (prun p prog).1 := by
+  induction prog generalizing f p with
+  | nil => exact ⟨rfl, r⟩
+  | cons op ops ih =>
+    simp only [runTags, List.append_eq_nil_iff] at ht
+    obtain ⟨s1, s2⟩ := step_refines maxReq hm f p op r (hops op (by simp)) ht.1
+    obtain ⟨i1, i2⟩ := ih _ _ s1 (fun o ho => hops o (by simp [ho])) ht.2
+    simp only [srun, prun, sameOuts, s2, i1, Bool.and_self]
+    exact ⟨trivial, i2⟩
+
+/-- consequence for the bytes on the server: a closed file holds exactly what the local file holds -/
+theorem closed_contents_equal (f : BF Srv) (p : PF) (r : Rel f p) (hc : f.closed = true) :
+    f.s.content = p.content := (r.dead hc).1.symm
+
+/-- non-vacuity: a freshly opened r+ file with line buffering is related to the freshly opened local file,
+    and a disciplined program (write, seek back, overwrite, truncate, close) fires no trigger -/
+def demoProg : List FOp :=
+  [.write (str "X\nY"), .seek 1 0, .tell, .write (str "Z"), .flush, .truncate 4, .close]
+
+example : ∀ op ∈ demoProg, WOp op := by simp [demoProg, WOp]
+
+example :
+    let f0 := (sftpOpen (some (str "abcdef")) "r+b".toList 1 8192 false).get (by decide)
+    runTags (sftpOps 2) f0 demoProg = [] ∧
+    (srun (sftpOps 2) f0 demoProg).1.s.content = str "XZY" ++ str "d" := by
+  decide +kernel
+
+/-! ## freshly opened files are related (non-append modes) -/
+
+private theorem setFlags_fields (f : BF Srv) (mode : List Char) (sz : Int) (hna : mode.contains 'a' = false) :
+    (setFlags f mode sz).s = f.s ∧ (setFlags f mode sz).closed = f.closed ∧ (setFlags f mode sz).rbuf = f.rbuf ∧
+    (setFlags f mode sz).wbuf = f.wbuf ∧ (setFlags f mode sz).pos = f.pos ∧ (setFlags f mode sz).realpos = f.realpos ∧
+    (setFlags f mode sz).app = f.app ∧
+    (setFlags f mode sz).wr = (f.wr || mode.contains 'w' || mode.contains '+') ∧
+    (setFlags f mode sz).bufsize = f.bufsize ∧ (setFlags f mode sz).buffered = f.buffered := by
+  unfold setFlags
+  simp only [hna, Bool.false_eq_true, if_false]
+  (repeat' split) <;> simp_all <;> (rename_i h1 h2; rcases h1 with h | h <;> simp [h])
+
+private theorem setBuf_fields (f : BF Srv) (bs : Int) (hd : 1 ≤ f.dflt) (hw : f.wbuf = []) :
+    (setBuf f bs).s = f.s ∧ (setBuf f bs).closed = f.closed ∧ (setBuf f bs).rbuf = f.rbuf ∧
+    (setBuf f bs).wbuf = [] ∧ (setBuf f bs).pos = f.pos ∧ (setBuf f bs).realpos = f.realpos ∧
+    (setBuf f bs).app = f.app ∧ (setBuf f bs).wr = f.wr ∧ 1 ≤ (setBuf f bs).bufsize := by
+  unfold setBuf
+  simp only
+  (repeat' split) <;> simp_all <;> omega
+
+/-- the relation holds between what `SFTPClient.open` and the local `open` return, for any content `c`
+    the two start from, any buffer size, any non-append mode string with the same writability -/
+theorem rel_init (c : Bytes) (tz : Bool) (mode : List Char) (bs : Int) (dflt : Nat) (rd : Bool)
+    (hd : 1 ≤ dflt) (hna : mode.contains 'a' = false) :
+    Rel (setMode ({ s := { content := c, truncZero := tz }, dflt := dflt, bufsize := dflt } : BF Srv) mode bs
+          (getSize { content := c, truncZero := tz }))
+        { content := c, rd := rd, wr := (mode.contains 'w' || mode.contains '+') } := by
+  unfold setMode
+  obtain ⟨b1, b2, b3, b4, b5, b6, b7, b8, b9⟩ :=
+    setBuf_fields ({ s := { content := c, truncZero := tz }, dflt := dflt, bufsize := dflt } : BF Srv) bs hd rfl
+  obtain ⟨a1, a2, a3, a4, a5, a6, a7, a8, a9, a10⟩ := setFlags_fields
+    (setBuf ({ s := { content := c, truncZero := tz }, dflt := dflt, bufsize := dflt } : BF Srv) bs) mode
+    (getSize { content := c, truncZero := tz }) hna
+  have hclosed : (setFlags (setBuf ({ s := { content := c, truncZero := tz }, dflt := dflt, bufsize := dflt } : BF Srv) bs)
+      mode (getSize { content := c, truncZero := tz })).closed = false := by rw [a2, b2]
+  exact {
+    closed := (by rw [hclosed])
+    wr := (by rw [a8, b8]; simp)
+    papp := rfl
+    app := (by rw [a7, b7])
+    sapp := (by rw [a1, b1])
+    coh := (by rw [a1, b1]; exact Or.inl rfl)
+    clean := (by rw [a1, b1]; exact ⟨rfl, rfl⟩)
+    rbuf := (by rw [a3, b3])
+    pos0 := (by rw [a5, b5]; exact Int.le_refl 0)
+    rp := (by rw [a6, b6, a5, b5])
+    bs := (by rw [a9]; exact b9)
+    unbuf := fun _ => (by rw [a4, b4])
+    dead := fun h => (by rw [hclosed] at h; cases h)
+    hopen := fun _ => (by rw [a1, b1])
+    content := fun _ => (by rw [a4, b4, overlay_nil, a1, b1])
+    ppos := fun _ => (by rw [a4, b4, a5, b5]; rfl) }
+
+/-- e.g. `sftp.open(name, "r+b", bufsize)` vs `open(name, "r+b")` on an existing file, any buffer size -/
+example (c : Bytes) (bs : Int) :
+    ∃ f0 p0, sftpOpen (some c) "r+b".toList bs 8192 false = some f0 ∧ pyOpen (some c) "r+b".toList = some p0 ∧
+      Rel f0 p0 := by
+  refine ⟨_, _, rfl, rfl, ?_⟩
+  exact rel_init c false "r+b".toList bs 8192 true (by decide) (by decide)
+
+/-- … and `"wb"` on a new or existing file (truncated on both sides) -/
+example (fs : Option Bytes) (bs : Int) :
+    ∃ f0 p0, sftpOpen fs "wb".toList bs 8192 false = some f0 ∧ pyOpen fs "wb".toList = some p0 ∧ Rel f0 p0 := by
+  cases fs <;> exact ⟨_, _, rfl, rfl, rel_init [] false "wb".toList bs 8192 false (by decide) (by decide)⟩
+
 end PV.Props.C27
